@@ -94,8 +94,12 @@ def main(argv=None) -> int:
             j = json.load(f)
         print(json.dumps(j, indent=1))
         root = j.get("root", "/repo")
+        if not os.path.isdir(os.path.join(root, "src", "yaw")):
+            print(f"(recorded source root {root} no longer exists, replaying against /repo)")
+            root = "/repo"
         prop = j["property"]
-        res_code = run_check(prop, "quick", root, write_evidence=False, only_rules=None)
+        print(f"--- re-running rule {j.get('rule')} of {prop} on {root}")
+        res_code = run_check(prop, "quick", root, write_evidence=False, only_rules=[j["rule"]] if j.get("rule") else None)
         path = os.path.join(root, j["file"])
         if os.path.exists(path) and j.get("line"):
             lines = open(path, encoding="utf-8").read().splitlines()
